@@ -251,7 +251,7 @@ def spec_check(case, g):
     if info["loaded"] and "end_img" in g and info["clean"] and g["end_img"][:2] != ["same", "same"]:
         bad.append("end of history, nothing modified since the last write: image at the loaded header address: LoadFromFile %s, minimal reader %s %s" % tuple(g["end_img"]))
     if info["loaded"] and "endw_img" in g and g["endw_img"][:2] != ["same", "same"]:
-        bad.append("one more WriteAt of the final object: image at the loaded header address: LoadFromFile %s, minimal reader %s %s" % tuple(g["endw_img"]))
+        bad.append("after the history, one more WriteAt of the final object (in place, same handle): image at the loaded header address: LoadFromFile %s, minimal reader %s %s" % tuple(g["endw_img"]))
     if info["loaded"] != ("end_img" in g) and "state" in g and not bad:
         bad.append("the object is %sloaded according to the history, the implementation says the opposite" % ("" if info["loaded"] else "not "))
     st = g["state"]
@@ -588,9 +588,10 @@ def shrink(H, case, pred, limit=250):
 
 
 # ------------------------------------------------------------------ replay of one stored case
-def replay(ctx):
+def replay(ctx, path=None):
+    """check.py --replay: returns the list of violations reproduced (empty list = the stored case passes now)."""
     H = ctx.harness
-    r = json.load(open(ctx.replay))
+    r = json.load(open(path or ctx.replay))
     d = r.get("detail", {})
     case = d.get("failing_input") or d.get("case") or {}
     viol = []
@@ -627,13 +628,16 @@ def replay(ctx):
             viol.append(dict(what="LoadFromFile verdict differs from the format", failing_input=case))
     else:
         print("replay: no case found in", ctx.replay)
-    return dict(violations=viol, known=[], coverage=dict(evaluations=1, distinct_nontrivial=1, rule="replay of one stored case", samples=[case]))
+    for v in viol:
+        print("VIOLATION (replayed):", v["what"])
+    return viol
 
 
 # ------------------------------------------------------------------ the check
 def run(ctx):
     if getattr(ctx, "replay", None):
-        return replay(ctx)
+        v = replay(ctx)
+        return dict(violations=v, known=[], coverage=dict(evaluations=1, distinct_nontrivial=1, rule="replay of one stored case", samples=[]))
     H, rng, tier = ctx.harness, ctx.rng, ctx.tier
     viol, known = [], []
     t0 = time.time()
@@ -939,6 +943,7 @@ def run(ctx):
         samples=[dict(case=dict(cases[coq_idx[i]], ops=cases[coq_idx[i]]["ops"][:6]), res=gos[coq_idx[i]]["res"][:6]) for i in range(min(3, len(coq_idx)))],
         programs=len(coq_items), disagreements_checked=len(coq_items) + len(pick) + len(load_items),
         model_evaluations_in_coq=len(coq_items) + len(pick) + len(load_items),
-        timing=dict(go_s=round(t_go, 1), coq_s=round(t_coq, 1), coq_jobs=len(JOB_TIMES), coq_job_max_s=max(JOB_TIMES.values() or [0])),
+        timing=dict(go_s=round(t_go, 1), coq_s=round(t_coq, 1), coq_jobs=len(JOB_TIMES), coq_job_max_s=max(JOB_TIMES.values() or [0]),
+                    coq_cpu_estimate_s=round(total_cost / 1e6, 1), coq_job_times_s=sorted(JOB_TIMES.values())),
         exhaustive=False)
     return dict(violations=viol, known=known, coverage=cov)
